@@ -307,5 +307,83 @@ def run(chk):
             shared = [v for i, v in mutable_ids(c).items() if i in mutable_ids(o)]
             if shared: return ('deepcopy#shares no mutable state', f'{name}: deepcopy shares {len(shared)} mutable object(s) with the original, e.g. {type(shared[0]).__name__} {str(shared[0])[:80]}', {})
         chk.bounded('deepcopy equal and disjoint', list(dc_cases()), dc_check, classify=lambda c: c[0], bound='the 4 nested shapes and the all-optional form of every type of both versions; id() walk over dictionaries, lists and embedded objects')
+        # ---- query arguments: the filters a caller hands to a source or store (a FilterSet, a list, a single Filter) are the caller's objects and are re-used across
+        # sources; sources with filters of their own, composites with filters, both back ends, every reading call that takes filters
+        from stix2.datastore.filters import Filter, FilterSet
+        from stix2.datastore import CompositeDataSource
+        from stix2 import MemoryStore, MemorySource, FileSystemStore, FileSystemSource, Environment, v21
+        qdir = os.path.join(tmp, 'q'); os.makedirs(qdir, exist_ok=True)
+        pop = [v21.Identity(name='a', identity_class='individual'), v21.Identity(name='b', identity_class='individual'), v21.Malware(name='m', is_family=False),
+               v21.Relationship('identity--311b2d2d-f010-4473-83ec-1edf84858f4c', 'related-to', 'identity--c78cb6e5-0c4b-4611-8297-d1b8b55e40b5')]
+        fss = FileSystemStore(qdir); fss.add(pop)
+
+        def sources():
+            own = [Filter('type', '!=', 'tool')]
+            ms = MemoryStore(list(pop)); yield 'memory store', ms
+            m2 = MemorySource(list(pop)); m2.filters.add(own); yield 'memory source with filters of its own', m2
+            f2 = FileSystemSource(qdir); f2.filters.add(own); yield 'filesystem source with filters of its own', f2
+            yield 'filesystem store', fss
+            c = CompositeDataSource(); c.add_data_sources([m2, FileSystemSource(qdir)]); c.filters.add(Filter('name', '!=', 'zz')); yield 'composite with filters over two members', c
+            yield 'environment', Environment(store=MemoryStore(list(pop)))
+
+        def q_cases():
+            f1, f2_ = Filter('type', '=', 'identity'), Filter('name', '=', 'a')
+            for sname, src in sources():
+                for qname, mk in (('FilterSet', lambda: FilterSet([f1])), ('FilterSet of two', lambda: FilterSet([f1, f2_])), ('list', lambda: [f1, f2_]), ('single Filter', lambda: f1), ('empty FilterSet', lambda: FilterSet())):
+                    for call in ('query', 'query twice', 'related_to', 'relationships'):
+                        yield (sname, src, qname, mk, call)
+
+        def q_check(case):
+            sname, src, qname, mk, call = case
+            q = mk(); before = snapshot(list(q) if not isinstance(q, Filter) else [q]); own_before = snapshot(list(getattr(src, 'filters', None) or []))
+            try:
+                if call == 'query': src.query(q)
+                elif call == 'query twice': src.query(q); src.query(q)
+                elif call == 'related_to': src.related_to(pop[0], filters=q)
+                else: src.relationships(pop[0].id)
+            except (AttributeError, TypeError):
+                return None            # not every front end has every navigation call
+            after = snapshot(list(q) if not isinstance(q, Filter) else [q])
+            if after != before: return ('frame#the caller\'s filters are unchanged after a reading call', f'{sname}.{call}({qname}) changed the caller\'s filters: {after} (were {before})', {})
+            if snapshot(list(getattr(src, 'filters', None) or [])) != own_before: return ('frame#the source\'s own filters are unchanged after a reading call', f'{sname}.{call}({qname}) changed the filters attached to the source', {})
+        chk.bounded('frame: filters handed to sources, stores, composites and environments', list(q_cases()), q_check, classify=lambda c: (c[0], c[2], c[4]),
+                    bound='6 front ends (memory / filesystem, with and without filters of their own, composite with filters, environment) x 5 shapes of the filter argument x 4 reading calls')
+
+        # ---- the pattern object model: building an expression from existing expressions leaves the operands what they were (text and the object types they range over)
+        import stix2.patterns as P
+
+        def comp(t, prop='name', v='x'): return P.EqualityComparisonExpression(P.ObjectPath(t, [prop]), P.StringConstant(v))
+
+        def psnap(e): return (str(e), type(e).__name__, tuple(sorted(getattr(e, 'root_types', ()) or ())), tuple(psnap(o) for o in getattr(e, 'operands', ()) or ()))
+
+        def p_cases():
+            builders = {
+                'OR of two object types': lambda a, b, c: P.OrBooleanExpression([a, b]),
+                'OR of three': lambda a, b, c: P.OrBooleanExpression([a, b, c]),
+                'AND of the same type': lambda a, b, c: P.AndBooleanExpression([a, c]),
+                'OR nested in AND': lambda a, b, c: P.AndBooleanExpression([P.OrBooleanExpression([a, b]), c]),
+                'AND of different types (refused)': lambda a, b, c: _try(lambda: P.AndBooleanExpression([a, b])),
+                'observation': lambda a, b, c: P.ObservationExpression(a),
+                'parenthetical': lambda a, b, c: P.ParentheticalExpression(P.OrBooleanExpression([a, b])),
+                'observation AND': lambda a, b, c: P.AndObservationExpression([P.ObservationExpression(a), P.ObservationExpression(b)]),
+                'qualified': lambda a, b, c: P.QualifiedObservationExpression(P.ObservationExpression(P.OrBooleanExpression([a, b])), P.RepeatQualifier(2)),
+            }
+            for n1, b1 in builders.items():
+                for n2, b2 in builders.items(): yield (n1, b1, n2, b2)
+
+        def p_check(case):
+            n1, b1, n2, b2 = case
+            a, b, c = comp('file'), comp('domain-name', 'value'), comp('file', 'size', 'y')
+            lst = [a, b]
+            before = [psnap(e) for e in (a, b, c)]
+            r1 = b1(a, b, c); mid = [psnap(e) for e in (a, b, c)]
+            if mid != before: return ('frame#pattern operands unchanged', f'building "{n1}" changed an operand: {mid} (was {before})', {})
+            s1 = psnap(r1) if r1 is not None and not isinstance(r1, Exception) else None
+            b2(a, b, c)
+            if [psnap(e) for e in (a, b, c)] != before: return ('frame#pattern operands unchanged', f'building "{n2}" after "{n1}" changed an operand: {[psnap(e) for e in (a, b, c)]} (was {before})', {})
+            if s1 is not None and psnap(r1) != s1: return ('frame#existing pattern expressions unchanged', f'building "{n2}" changed the expression built before ("{n1}"): {psnap(r1)} (was {s1})', {})
+            P.OrBooleanExpression(lst)
+            if lst != [a, b]: return ('frame#operand list unchanged', 'the list of operands handed to OrBooleanExpression was modified', {})
+        chk.bounded('frame: operands of pattern expressions', list(p_cases()), p_check, classify=lambda c: (c[0], c[2]), bound='9 ways of building an expression from three comparison expressions, all ordered pairs of them')
     finally:
         shutil.rmtree(tmp, ignore_errors=True)
